@@ -50,6 +50,7 @@ type FrameBounds struct {
 	SmallDomain      bool     // few distinct values (grouping, filtering)
 	NoNullStr        bool
 	ManyEnumValues   bool // now and then an enum column with 32..70 distinct values
+	SumFloats        bool // float cells are finite values whose sum depends on the order of addition (0.1, 1e16, -1e16, ...)
 	LongNames        bool // column names of 35..250 characters (wider than any fixed-size scratch space)
 }
 
@@ -99,7 +100,12 @@ func StressFloats(key uint64, n int) []float64 {
 var nanA = math.NaN()
 var nanB = math.Float64frombits(0xfff8000000000000)
 
+var sumFloats = []float64{0.1, 0.2, 0.3, 0.7, 1, -1, 1e16, -1e16, 3, 1e-3, 123456.789, -0.1, 2.5e15, 1e-9, 9007199254740993, 0.30000000000000004}
+
 func drawFloat(t *rapid.T, b FrameBounds) float64 {
+	if b.SumFloats {
+		return sumFloats[rapid.IntRange(0, len(sumFloats)-1).Draw(t, "fsum")]
+	}
 	k := rapid.IntRange(0, 9).Draw(t, "fkind")
 	switch {
 	case k == 0 && !b.NoNaN:
